@@ -505,6 +505,132 @@ class NameScenario(explore.Scenario):
         return (tuple(p is not None for p in w.slots), len(w.seen))
 
 
+def run_long_lived(gap):
+    """a long-lived bus: A stays connected while gap-1 short-lived
+    connections come and go, then B connects: the two have different unique
+    names, and a message to either name arrives exactly once, at that
+    connection only, with the true sender"""
+    viol = []
+    try:
+        w = fakes.BusWorld()
+        a = w.connect()
+        w.churn(gap - 1)
+        b = w.connect()
+        c = w.connect()
+        where = ('A (%s) connected, %d connections came and went, B (%s) '
+                 'and C (%s) connected' % (a.name, gap - 1, b.name, c.name))
+        if len({a.name, b.name, c.name}) != 3 or None in (a.name, b.name,
+                                                          c.name):
+            viol.append(('long-lived/unique-name-reused', where))
+            return viol
+        for p_ in (a, b, c):
+            p_.received()
+        for k, (src, dst) in enumerate([(c, a), (c, b), (a, b), (b, a)]):
+            serial = src.next_serial()
+            src.send_raw(R.encode_message(
+                R.METHOD_CALL, serial,
+                {'path': '/o', 'member': 'Ping%d' % k, 'interface': 'a.b',
+                 'destination': dst.name, 'sender': ':1.424242'}, 's',
+                ['k%d' % k]))
+            got = {p_.name: [m for m in p_.received()] for p_ in (a, b, c)}
+            mine = got[dst.name]
+            ok = len(mine) == 1 and mine[0]['type'] == 1 and \
+                mine[0]['fields'].get('sender') == src.name and \
+                mine[0]['fields'].get('member') == 'Ping%d' % k and \
+                mine[0]['serial'] == serial and mine[0]['body'] == \
+                ['k%d' % k] and \
+                not any(v for n_, v in got.items() if n_ != dst.name)
+            if not ok:
+                viol.append(('long-lived/delivery',
+                             '%s; a call from %s to %s arrived as %r'
+                             % (where, src.name, dst.name,
+                                {n_: [(m['type'], m['fields'].get('sender'),
+                                       m['fields'].get('member'))
+                                      for m in v] for n_, v in got.items()})))
+    except Exception as e:
+        viol.append(('long-lived/raises-%s' % type(e).__name__,
+                     '%d connections between A and B: raised %r'
+                     % (gap - 1, e)))
+    return viol
+
+
+def run_largest(total):
+    """a message of `total` bytes (the protocol allows up to 2**27) whose
+    forged sender field is as long as the true one: the bus hands it on with
+    the same length"""
+    viol = []
+    try:
+        w = fakes.BusWorld()
+        a = w.connect()
+        b = w.connect()
+        forged = ':1.' + '9' * (len(a.name) - 3)
+        f = {'path': '/o', 'member': 'Big', 'interface': 'a.b',
+             'destination': b.name, 'sender': forged}
+        probe = R.encode_message(R.METHOD_CALL, 7, f, 's', ['x' * 16])
+        text = 'y' * (16 + total - len(probe))
+        raw = R.encode_message(R.METHOD_CALL, 7, f, 's', [text])
+        assert len(raw) == total
+        del text
+        b.received()
+        a.send_raw(raw)
+        data = b.transport.take()
+        back = a.transport.take()
+        del raw
+        problems = []
+        if len(data) != total:
+            problems.append('%d bytes arrived' % len(data))
+        else:
+            try:
+                m = R.parse_message(data)
+                if m['type'] != 1 or m['serial'] != 7:
+                    problems.append('type/serial %r/%r' % (m['type'],
+                                                           m['serial']))
+                wantf = dict(f, sender=a.name, signature='s')
+                gotf = dict(m['fields'])
+                gotf.setdefault('signature', 's')
+                if gotf != wantf:
+                    problems.append('header fields %r' % (m['fields'],))
+                if len(m['body']) != 1 or \
+                        m['body'][0] != 'y' * len(m['body'][0]) or \
+                        len(m['body'][0]) != 16 + total - len(probe):
+                    problems.append('body of %d values, first of length %d'
+                                    % (len(m['body']), len(m['body'][0])
+                                       if m['body'] else -1))
+            except Exception as e:
+                problems.append('unreadable: %r' % (e,))
+        if problems:
+            kind = 'dropped' if not data else 'changed'
+            viol.append(('largest/%s' % kind,
+                         'a valid message of %d bytes (limit 2**27 = %d) '
+                         'addressed to another connection: %s; the sender '
+                         'got %d bytes back (%r)'
+                         % (total, 2 ** 27, '; '.join(problems), len(back),
+                            back[:0] if len(back) > 4000 else
+                            [(m['type'], m['fields'].get('error_name'))
+                             for m in fakes.messages_of(back)])))
+    except Exception as e:
+        viol.append(('largest/raises-%s' % type(e).__name__,
+                     'a message of %d bytes: raised %r' % (total, e)))
+    return viol
+
+
+def _task_long_lived(gap):
+    res = core.Result()
+    res.count('states')
+    res.count('transitions', 6 if isinstance(gap, tuple) else gap + 6)
+    res.count('evaluations', 4)
+    res.count('nontrivial')
+    if isinstance(gap, tuple):
+        for t, w in run_largest(gap[1]):
+            res.violation('%s/%s' % (PROP, t), w,
+                          {'part': 'largest', 'args': [gap[1]]}, size=1)
+        return res
+    for t, w in run_long_lived(gap):
+        res.violation('%s/%s' % (PROP, t), w,
+                      {'part': 'long-lived', 'args': [gap]}, size=gap)
+    return res
+
+
 def run(ctx):
     ctx.rule = (
         'routing: 3 scripted raw clients on a real Bus; events: client 0/1 '
@@ -524,7 +650,10 @@ def run(ctx):
         'any step other than the consumption of its message is stray, which '
         'with first-in first-out consumption gives per-pair order). '
         'unique names: connect / disconnect / second Hello / calls to every '
-        'name ever issued, to depth %d' % (len(TEMPLATES),
+        'name ever issued, to depth %d. Long-lived bus: 254..257 / '
+        '65534..65537 connections come and go between two that stay, then '
+        'calls between those; messages of 2**16, 2**27-8 and exactly 2**27 '
+        'bytes handed on' % (len(TEMPLATES),
                                            5 if ctx.quick else 7))
     ctx.assumptions = [
         'a connection holding several matching rules may receive a broadcast '
@@ -611,8 +740,18 @@ def run(ctx):
                         max_states=200000)
         explore.explore(ctx, NameScenario, {}, max_depth=7,
                         label='unique names, depth 7')
+    from mcx import scale
+    ctx.map(_task_long_lived, scale.LADDER_SMALL[3:] + scale.LADDER_WORD
+            + [('largest', 2 ** 27), ('largest', 2 ** 27 - 8),
+               ('largest', 2 ** 16), ('largest', 2 ** 16 + 8)])
     ctx.bounds = {'clients': 3}
 
 
 def replay(data):
+    if data.get('part') == 'long-lived':
+        return [('%s/%s' % (PROP, t), w) for t, w in
+                run_long_lived(*data['args'])]
+    if data.get('part') == 'largest':
+        return [('%s/%s' % (PROP, t), w) for t, w in
+                run_largest(*data['args'])]
     return explore.replay_violation(data)
